@@ -314,3 +314,60 @@ def c02_witness(ctx, look_deg, dist_yd, wind):
     drop = row.target_drop >> U.Foot
     slope_rel = abs(math.tan(row.angle >> U.Radian) - math.tan(math.radians(look_deg))) * math.cos(math.radians(look_deg))
     ctx.check('public_api_hits_point_of_aim', abs(drop) <= 5e-6 + 0.5 * slope_rel + 1e-9, info={'look_deg': look_deg, 'target_drop_ft': drop})
+
+
+def _cfg_reach(tier):
+    cases = [(0.0, 1500.0), (10.0, 1200.0), (20.0, 1200.0), (30.0, 900.0), (45.0, 900.0), (-20.0, 900.0),
+             (10.0, 1400.0), (10.0, 1500.0), (20.0, 1400.0), (30.0, 1200.0), (45.0, 1200.0)]
+    if tier == 'thorough':
+        cases += [(5.0, 1500.0), (15.0, 1300.0), (25.0, 1100.0), (40.0, 1000.0), (-10.0, 1000.0)]
+    return [{'look_deg': l, 'dist_yd': d} for (l, d) in cases]
+
+
+@harness('C02.reach', 'C02', configs=_cfg_reach, functions=FUNCS, must_reach=['check:zeroing_does_not_fail_for_reachable_target'],
+         bounds='TEST STRENGTH (concrete runs through the public API, not a solver claim - convergence of the search on real drag trajectories is outside what the '
+                'solver decides): a slow projectile (G1 BC 0.12, 1100 fps, 2 ft steps) zeroed at long range on level and inclined sight lines, up to near its maximum range. '
+                'The statement\'s precondition is established natively first (launched along the sight line the projectile reaches the distance within the limits, and some '
+                'elevation puts it above the aim point, so the target is within reach); then set_weapon_zero must return, and the zeroed shot must pass the aim point',
+         outside=['loads and distances other than the listed ones'])
+def c02_reach(ctx, look_deg, dist_yd):
+    p = pybc()
+    U = p.Unit
+    cfg = {'max_calc_step_size_feet': 2.0}
+
+    def mk(rel=0.0):
+        return p.Shot(p.Weapon(U.Inch(2.0)), p.Ammo(p.DragModel(0.12, p.TableG1), U.FPS(1100.0)), look_angle=U.Degree(look_deg), relative_angle=U.Degree(rel))
+    zd = math.cos(math.radians(look_deg)) * dist_yd * 3.0
+    aim = math.sin(math.radians(look_deg)) * dist_yd * 3.0
+    try:
+        p.Calculator(_config=cfg).fire(mk(), U.Foot(zd), U.Foot(zd))
+        pre = True
+    except p.RangeError:
+        pre = False
+    within_reach = False
+    if pre:
+        for rel in range(0, 60, 2):
+            try:
+                rows = p.Calculator(_config=cfg).fire(mk(float(rel)), U.Foot(zd), U.Foot(zd)).trajectory
+            except p.RangeError:
+                break
+            if (rows[-1].height >> U.Foot) >= aim:
+                within_reach = True
+                break
+    ctx.check('precondition_established', pre and within_reach, info={'look_deg': look_deg, 'dist_yd': dist_yd})
+    if not (pre and within_reach):
+        return
+    calc, shot = p.Calculator(_config=cfg), mk()
+    try:
+        calc.set_weapon_zero(shot, U.Yard(dist_yd))
+        failed = None
+    except (p.ZeroFindingError, p.RangeError) as e:
+        failed = f'{type(e).__name__}: {e}'[:160]
+    ctx.check('zeroing_does_not_fail_for_reachable_target', failed is None, info={'look_deg': look_deg, 'dist_yd': dist_yd, 'raised': failed})
+    if failed is not None:
+        return
+    res = calc.fire(shot, U.Foot(zd), U.Foot(zd))
+    row = res.trajectory[-1]
+    drop = row.target_drop >> U.Foot
+    slope_rel = abs(math.tan(row.angle >> U.Radian) - math.tan(math.radians(look_deg))) * math.cos(math.radians(look_deg))
+    ctx.check('zeroed_shot_passes_the_aim_point', abs(drop) <= 5e-6 + 2.0 * slope_rel + 1e-9, info={'look_deg': look_deg, 'target_drop_ft': drop})
